@@ -585,3 +585,58 @@ def all_templates(kind, mode):
                         for sur in SURROUND:
                             out.append((ek, last, nesting, nitems, is_async, sur))
     return out
+
+
+def deep(seed, kind, mode):
+    """many simultaneously active managers in one frame (10..16), as nested statements, as items of
+    one statement, or mixed with try blocks: the handler chain of the innermost position is long"""
+    rng = random.Random(seed)
+    n = rng.randint(10, 16)
+    lines = []
+    k = [0]
+
+    def nk():
+        k[0] += 1
+        return k[0]
+
+    def sus(ind):
+        i = nk()
+        if mode == "running":
+            lines.append("    " * ind + "P(%d)" % i)
+        elif kind == "coro":
+            lines.append("    " * ind + "await sus(%d)" % i)
+        elif kind == "gen":
+            lines.append("    " * ind + "yield pre(%d)" % i)
+            lines.append("    " * ind + "post(%d)" % i)
+        else:
+            lines.append("    " * ind + ("await sus(%d)" % i if i % 2 else "yield pre(%d)" % i))
+    is_async_kind = kind in ("coro", "agen")
+    lines.append(("async def f0():" if is_async_kind else "def f0():"))
+    ind = 1
+    left = n
+    while left > 0:
+        items = min(left, rng.choice((1, 1, 2, 3, 5)))
+        left -= items
+        use_async = is_async_kind and rng.random() < 0.4
+        ctor = "A" if use_async else "S"
+        its = []
+        for _ in range(items):
+            i = nk()
+            its.append("%s(%d) as v%d" % (ctor, i, i) if rng.random() < 0.5 else "%s(%d)" % (ctor, i))
+        lines.append("    " * ind + ("async with " if use_async else "with ") + ", ".join(its) + ":")
+        ind += 1
+        if rng.random() < 0.3:
+            sus(ind)
+        if rng.random() < 0.15 and ind < 14:
+            lines.append("    " * ind + "try:")
+            ind += 1
+            closing = ("    " * (ind - 1) + "finally:", "    " * ind + "pass")
+            lines.append("    " * ind + "pass")
+            lines.extend(closing)
+            ind -= 1
+    sus(ind)
+    lines.append("    " * ind + "if D(): raise E1()")
+    sus(ind)
+    if kind in ("gen", "agen"):
+        lines.append("    if False: yield")
+    return "\n".join(lines) + "\n"
